@@ -15,6 +15,7 @@ order-insensitive, or (c) a recorded known finding.  A source the table does not
 import json
 import os
 
+import cfg as C
 import tree as T
 from db import AnalysisBroken, VERIF
 
@@ -163,6 +164,66 @@ def has_call(db, fname, callee, arity=None):
                     if x.get('k') == 'call' and T.short(x.get('fn', '')) == callee:
                         n += 1
     return n
+
+
+def normaliser_bypass(db, nzfn, call, srcfn, src_f=None, src_ln=None):
+    """the normaliser function calls the source (srcfn) itself - e.g. Intersect12_ calls recorder.get() - and a path leads
+    from that call to a normal return without passing a `call` (the sort): returns (line of the source call, line of the
+    bypassing return's block) or None.  Paths that leave through a cancellation test are not bypasses (a cancelled
+    result is discarded)."""
+    f = root_fn(db, nzfn)
+    if not f or not f.get('blocks'):
+        return False, None
+    g = C.Cfg(f)
+    if not g.ok():
+        return False, None
+    srcs, sorts, cancel = [], set(), set()
+    for b in f['blocks']:
+        for ev in b['ev']:
+            if ev.get('k') != 'call':
+                continue
+            callee = db.functions.get(ev.get('fk'))
+            if callee is not None and T.basename(callee['name']) == srcfn:
+                srcs.append((b['id'], ev.get('ln')))
+            # the source sits in a lambda of this very function (parallel loop body): the statement that runs the lambda
+            if src_f is not None and src_f.get('key') != f.get('key') and root_name(src_f) == nzfn and \
+                    any(isinstance(y, dict) and y.get('k') == 'lambda' and y.get('fk') == src_f.get('key')
+                        for y in T.walk(ev)):
+                srcs.append((b['id'], ev.get('ln')))
+            if any(isinstance(y, dict) and y.get('k') == 'call' and T.short(y.get('fn', '')) == call
+                   for y in T.walk(ev)):
+                sorts.add(b['id'])
+            # ... or the sort runs inside the lambda this statement executes (a per-bucket std::sort in a for_each_n)
+            for y in T.walk(ev):
+                if isinstance(y, dict) and y.get('k') == 'lambda' and y.get('fk') in db.functions:
+                    lf = db.functions[y['fk']]
+                    if any(isinstance(z, dict) and z.get('k') == 'call' and T.short(z.get('fn', '')) == call
+                           for bb in lf.get('blocks', []) for e2 in bb['ev'] for z in T.walk(e2)):
+                        sorts.add(b['id'])
+        cond, _ = C.branch_cond(b)
+        if cond is not None and 'IsCancelled' in T.pstr(cond):
+            cancel.add(b['id'])
+    for (sb, ln) in srcs:
+        if sb in sorts:
+            continue
+        seen, work = set(), [sb]
+        while work:
+            y = work.pop()
+            if y in seen:
+                continue
+            seen.add(y)
+            for t in g.succ.get(y, []):
+                if t is None or t < 0 or t in sorts:
+                    continue
+                if y in cancel:
+                    # only the not-cancelled edge continues the computation; the cancelled one returns a discarded value
+                    pass
+                if t == g.exit:
+                    if y not in cancel and not any(p in cancel for p in g.pred.get(y, [])):
+                        return True, (ln, (g.blocks[y]['ev'] or [{}])[-1].get('ln'))
+                    continue
+                work.append(t)
+    return bool(srcs), None
 
 
 def comparator_reads(db, spec):
@@ -589,6 +650,14 @@ def main(chk, tier):
                     ok, missing = comparator_reads(db, nz['comparator'])
                     why += '; comparator reads %s' % nz['comparator']['fields'] if ok else \
                         '; comparator no longer reads %s' % missing
+                if ok:
+                    applies, byp = normaliser_bypass(db, nz['function'], nz['call'], fn, f, ln)
+                    if applies:
+                        chk.count('c04.1.normaliser_paths_checked')
+                        why += '; every path from the source call to a normal return passes it'
+                    if byp:
+                        ok = False
+                        why += '; but the path from the source call at line %s to the return at line %s skips it' % byp
                 chk.obligation(ok, {'source': list(key), 'normaliser': why})
                 if not ok:
                     chk.violation('C04.1', f, '%s %s %s' % key,
